@@ -5,7 +5,7 @@ import ast
 import xml.etree.ElementTree as ET
 
 from ..cells import top_level_classes
-from ..core import AnalysisError, U, calls_in, enclosing_loops, guards_of, iter_stmts, parent, walk_no_defs
+from ..core import AnalysisError, U, calls_in, canon_guards, enclosing_loops, guards_of, iter_stmts, parent, walk_no_defs
 from ..tables import Tables
 from . import c01
 
@@ -184,16 +184,23 @@ def check(prog, rep):
                 good = []
                 for m in setters:
                     txt = U(m.node)
-                    loops = [n for n in ast.walk(m.node) if isinstance(n, ast.For) and "remove_atom" in U(n) and "!=" in U(n)]
+                    # a loop that removes every hydrogen of the list except the chosen one (removal guarded by "is not the chosen one")
+                    loops = []
+                    for n in ast.walk(m.node):
+                        if isinstance(n, ast.For):
+                            for c_ in calls_in(n):
+                                if isinstance(c_.func, ast.Attribute) and c_.func.attr == "remove_atom" and \
+                                        any(" == " in t_ and not p_ for t_, p_ in canon_guards(c_, n)):
+                                    loops.append(n)
                     if loops and "self.rename(" in txt:
                         good.append(m.node.name)
                         continue
                     # or: declared fixed only once a single hydrogen is left, renaming it in the same block
                     for x in iter_stmts(m.node.body):
                         if isinstance(x, ast.Assign) and U(x.targets[0]).endswith(".fixed") and U(x.value) == "1":
-                            g = [U(tst) for tst, p in guards_of(x) if p]
+                            g = [tst for tst, p in canon_guards(x) if p]
                             blk = parent(x)
-                            if any("len(self.hlist) == 1" in tst for tst in g) and "self.rename(" in U(blk):
+                            if any("len(self.hlist) == 1" in tst for tst in g) and "self.rename(" in U(m.node):
                                 good.append(m.node.name)
                 ok = bool(setters) and len(good) == len(setters)
                 detail = f"methods setting fixed=1: {[m.node.name for m in setters]}; of these remove all but the chosen hydrogen and rename it: {good}"
@@ -203,7 +210,7 @@ def check(prog, rep):
     fin = [c for c in calls_in(oh) if U(c.func).endswith(".finalize")]
     okf = False
     if fin:
-        g = [(U(tst), p) for tst, p in guards_of(fin[0])]
+        g = canon_guards(fin[0])
         okf = ("len(obj.hbonds) == 0", True) in g and all(tst in ("len(obj.hbonds) == 0", "obj.residue.fixed") for tst, _ in g)
         lp = _enclosing_for(fin[0])
         okf &= lp is not None and U(lp.iter) == "optlist" and parent(lp) is oh
@@ -241,7 +248,7 @@ def check(prog, rep):
                 blk = parent(_stmt(c))
                 ok = any(U(x.func) == "_LOGGER.warning" for s in getattr(blk, "body", []) for x in calls_in(s))
             elif key.endswith("remove_hydrogens"):
-                ok = any("is_hydrogen" in U(tst) and p for tst, p in guards_of(c))
+                ok = any("is_hydrogen" in tst and p for tst, p in canon_guards(c))
             elif key.endswith("HIS.set_state"):
                 ok = isinstance(c.args[0], ast.Constant) and c.args[0].value in ("HD1", "HE2")
             elif key.endswith("apply_patch"):
